@@ -11,7 +11,7 @@ LEVEL = 'exploration'
 DAYS = ['2019/12/30', '2019/12/31', '2020/01/01', '2020/02/28', '2020/02/29', '2020/03/01', '2021/02/28', '2021/03/01']
 RULE = ('Engine A: anchor days around month, year and leap boundaries (8 days) -> 8 single-day entries + 36 closed '
         'ranges = 44 entries; EVERY list of <= 2 | <= 3 entries (1 980 | 87 164 lists: all orders, duplications and '
-        'overlaps are in the list space; quick adds all 3 375 triples over a 15-entry sub-alphabet of 5 consecutive days), the empty list; malformed entries (impossible dates, non-dates, empty string, '
+        'overlaps are in the list space; quick adds all 3 375 triples over a 15-entry sub-alphabet of 5 consecutive days; both tiers add all 1 296 4-entry lists over 3 consecutive days and all 1 024 5-entry lists over a 4-entry alphabet), the empty list; malformed entries (impossible dates, non-dates, empty string, '
         'three-part ranges, all 28 reversed ranges, wrong separators) each embedded at every position of valid lists of '
         'length <= 2. Oracle on expand_time_windows(find_days_to_exclude(list)): no duplicates, every element a '
         'midnight timestamp, day set == reference union of closed ranges (datetime.date ordinals); malformed => '
@@ -42,6 +42,15 @@ def cases(tier, seed):
         sub = [d for d in SUBDAYS] + ['%s - %s' % (a, b) for a, b in itertools.combinations(SUBDAYS, 2)]
         for combo in itertools.product(sub, repeat=3):
             out.append({'list': list(combo)})
+    # deeper on tiny alphabets: all 4-entry lists over 3 consecutive days (3 single days + 3 ranges), all 5-entry lists over
+    # {a day inside a range, that range, a range continuing it, a disjoint day}
+    d3 = SUBDAYS[1:4]
+    sub4 = list(d3) + ['%s - %s' % (a, b) for a, b in itertools.combinations(d3, 2)]
+    for combo in itertools.product(sub4, repeat=4):
+        out.append({'list': list(combo)})
+    sub5 = ['2020/02/28', '2020/02/27 - 2020/02/29', '2020/03/01 - 2020/03/02', '2021/03/01']
+    for combo in itertools.product(sub5, repeat=5):
+        out.append({'list': list(combo)})
     bad = list(MALFORMED) + ['%s - %s' % (b, a) for a, b in itertools.combinations(DAYS, 2)]
     for m in bad:
         out.append({'list': [m]})
